@@ -225,6 +225,18 @@ func runC17(c *Ctx) error {
 			check(bad, fmt.Sprintf("inject:%s@%d", p, lvl))
 		}
 	}
+	// integer settings: the parser accepts any number that fits the field (modes with set-user-ID, set-group-ID and sticky
+	// bits, a umask, large sizes, priorities); the schema must not be narrower than that
+	for _, p := range order {
+		if kinds[p] != "int" {
+			continue
+		}
+		for _, v := range []int{0, 1, 0o644, 0o777, 0o1777, 0o2755, 0o4755, 0o7777, 65535, 1 << 20} {
+			doc := docFor(kinds, p, v, -1)
+			fixRequired(doc)
+			check(doc, fmt.Sprintf("int:%s=%d", p, v))
+		}
+	}
 	for p, vals := range enumerated {
 		for _, v := range vals {
 			doc := docFor(kinds, p, v, -1)
